@@ -96,4 +96,41 @@ theorem cipher_length (rks : List Bytes) (b : Bytes) (hk : ∀ k ∈ rks, k.leng
     exact encRounds_length ks _ (fun q hq => hk q (by simp [hq]))
       (addRoundKey_length k0 b (hk k0 (by simp)) hb)
 
+theorem invMixColumns_length (s : Bytes) (h : s.length = 16) : (invMixColumns s).length = 16 := by
+  obtain ⟨a0, a1, a2, a3, a4, a5, a6, a7, a8, a9, a10, a11, a12, a13, a14, a15, rfl⟩ := list16 s h
+  simp [invMixColumns, invMixCol]
+
+theorem invShiftRows_length (s : Bytes) : (invShiftRows s).length = 16 := by
+  simp [invShiftRows, invShiftIdx]
+
+theorem invSubBytes_length (s : Bytes) : (invSubBytes s).length = s.length := by simp [invSubBytes]
+
+theorem decRounds_length : ∀ (ks : List Bytes) (s : Bytes), (∀ k ∈ ks, k.length = 16) →
+    s.length = 16 → (decRounds ks s).length = 16 := by
+  intro ks
+  induction ks with
+  | nil => intro s _ hs; exact hs
+  | cons k ks ih =>
+    intro s hk hs
+    have hk16 := hk k (by simp)
+    have h1 : (invSubBytes (invShiftRows s)).length = 16 := by
+      rw [invSubBytes_length, invShiftRows_length]
+    cases ks with
+    | nil => exact addRoundKey_length k _ hk16 h1
+    | cons k' ks' =>
+      rw [decRounds_cons k _ (by simp)]
+      exact ih _ (fun q hq => hk q (by simp [hq]))
+        (invMixColumns_length _ (addRoundKey_length k _ hk16 h1))
+
+theorem invCipher_length (rks : List Bytes) (b : Bytes) (hk : ∀ k ∈ rks, k.length = 16)
+    (hb : b.length = 16) : (invCipher rks b).length = 16 := by
+  unfold invCipher
+  have hr : ∀ k ∈ rks.reverse, k.length = 16 := fun k h => hk k (List.mem_reverse.mp h)
+  generalize rks.reverse = l at hr
+  cases l with
+  | nil => exact hb
+  | cons kN ks =>
+    exact decRounds_length ks _ (fun q hq => hr q (by simp [hq]))
+      (addRoundKey_length kN b (hr kN (by simp)) hb)
+
 end MgProof.C12
